@@ -415,9 +415,13 @@ func (ex *Exec) contractCall(st *State, fr *Frame, instr ssa.Instruction, fn *ss
 			ex.havocClosed(st)
 			continue
 		}
+		if a == "ctxdone" {
+			ex.observeCtx(st)
+			continue
+		}
 		st.havoc(a)
 	}
-	for _, c := range ms.counters() {
+	for _, c := range ex.expandCounters(st, ms) {
 		old := st.counter(c)
 		st.cnt[c] = st.fresh("cnt."+c, "Int")
 		st.assume("(>= " + st.cnt[c] + " " + old + ")")
@@ -619,7 +623,10 @@ func (ex *Exec) doRecv(st *State, fr *Frame, instr ssa.Instruction, ch Val, comm
 		}
 	}
 	for _, cc := range ex.specs.ClassList {
-		g := ex.evalClause(st, fr, cc.MsgInv, map[string]Val{"m": v, "ch": ch})
+		g, typed := ex.tryClause(st, fr, cc.MsgInv, map[string]Val{"m": v, "ch": ch})
+		if !typed {
+			continue
+		}
 		st.assume(smtImp(smtAnd(ok, fmt.Sprintf("(= (ch_class %s) %d)", ch.T, cc.ID)), g))
 	}
 	st.bump("recv")
@@ -703,7 +710,10 @@ func (ex *Exec) doSendSel(st *State, fr *Frame, instr ssa.Instruction, idx int, 
 // sendMsgInv: a message sent on a channel must satisfy the invariant of the channel's class.
 func (ex *Exec) sendMsgInv(st *State, fr *Frame, instr ssa.Instruction, ch Val, v Val, site string) {
 	for _, cc := range ex.specs.ClassList {
-		g := ex.evalClause(st, fr, cc.MsgInv, map[string]Val{"m": v, "ch": ch})
+		g, typed := ex.tryClause(st, fr, cc.MsgInv, map[string]Val{"m": v, "ch": ch})
+		if !typed {
+			continue
+		}
 		goal := smtImp(fmt.Sprintf("(= (ch_class %s) %d)", ch.T, cc.ID), g)
 		ex.oblige(st, "msginv", fmt.Sprintf("%s/send.msginv.%s%s", fr.key, cc.Name, site), cc.MsgInv.Labels, goal, cc.MsgInv, ex.posOf(instr))
 	}
